@@ -22,6 +22,11 @@ func description(b []byte) ([]byte, error) {
 
 	lines := bytes.Split(b, []byte{'\n'})
 
+	// A line of spaces before the text is a blank line too, it isn't a part of the text.
+	for len(lines) > 1 && len(bytes.TrimLeft(lines[0], "\t ")) == 0 {
+		lines = lines[1:]
+	}
+
 	prefix := longestWhitespacePrefix(lines)
 	for i := 0; i < len(lines); i++ {
 		lines[i] = bytes.TrimPrefix(lines[i], prefix)
